@@ -40,7 +40,8 @@ RULE = ("generated grammars x {tree, GE, SGE, dSGE, stack} x (a) operator sequen
         "individual that is not one of its inputs; distinct = distinct (configuration, seed)")
 ASSUMPTIONS = [
     "Individual.metadata['generation'] is written by Population, not by an operator, and is not one of the facets the property lists",
-    "cache fills (phenotype, fitness store, node labels none -> some) and dynamic SGE's on-demand extension of a genotype being mapped are not modifications",
+    "cache fills (phenotype, fitness store, node labels none -> some) and dynamic SGE's on-demand extension of a genotype being mapped are not modifications; "
+    "mutation and crossover steps have no reason to map their parents: on a fresh (never mapped) population they must leave every parent genotype exactly as it was",
     "object identity / sharing is observed through id(); the functional Lean model has no identity, so sharing is checked on the implementation only",
 ]
 
@@ -324,6 +325,41 @@ def run(h: Harness):
                         break
                 pool.extend(new[: max(0, 10 - len(pool))])
                 w.add(new)
+            # (b0) variation steps on a FRESH population (never evaluated, never mapped -- what an initialiser or NoveltyStep hands over):
+            # mutation and crossover have no business mapping their parents; under dynamic SGE a parent's genes stay exactly as they were
+            fresh = []
+            for k in range(5):
+                st, ge = safe(lambda: rep.create_genotype(r))
+                if st == "ok":
+                    fresh.append(Individual(ge, rep))
+            if len(fresh) >= 2:
+                before = [geno_snapshot(i.genotype, b) for i in fresh]
+                for sname, mk in (("mutation", lambda: GenericMutationStep(1)), ("crossover", lambda: GenericCrossoverStep(1)),
+                                  ("seq[crossover,mutation]", lambda: SequenceStep(GenericCrossoverStep(1), GenericMutationStep(1)))):
+                    st, out = safe(lambda: list(mk().apply(problem, ev, rep, r, list(fresh), len(fresh), 1)))
+                    h.count(f"fresh-population-step:{sname}:{st}")
+                    after = [geno_snapshot(i.genotype, b) for i in fresh]
+                    if after != before:
+                        j = next(k for k in range(len(fresh)) if after[k] != before[k])
+                        h.fail(f"{name}:step[{sname}]", "input-modified",
+                               f"{sname}.apply on a fresh {name} population (never evaluated, never mapped): the genotype of parent #{j} changed from "
+                               f"{str(before[j])[:100]} to {str(after[j])[:100]}", [line, name, seedv, sname])
+                        break
+            # hand-written programs (built by calling the classes, not by the library: no synthesis context, no labels) as parents of the tree
+            # operators: they come out of mutation / crossover as they went in
+            if name == "tree":
+                st, hand = safe(lambda: [gram.rebuild_plain(p.genotype, b) for p in pool[:3]])
+                if st == "ok" and hand:
+                    snaps = [node_snapshot(x, b, {}) for x in hand]
+                    for k, x in enumerate(hand):
+                        safe(lambda: rep.mutate(r, x))
+                        safe(lambda: rep.crossover(r, x, hand[(k + 1) % len(hand)]))
+                    h.count("hand-written-parents")
+                    now = [node_snapshot(x, b, {}) for x in hand]
+                    if now != snaps:
+                        j = next(k for k in range(len(hand)) if now[k] != snaps[k])
+                        h.fail("tree:mutate", "input-modified", f"tree.mutate / crossover of a hand-written program (no synthesis metadata) changed it: "
+                               f"{sx(snaps[j])[:120]} -> {sx(now[j])[:120]}", [line, name, seedv, "hand-written"])
             # (b) steps on an evaluated population
             safe(lambda: ev.evaluate(problem, pool))
             pool = [p for p in pool if p.has_fitness(problem)]
